@@ -456,7 +456,7 @@ def model_export_to_file(f, model=None, repo=None):
                             if list_obj is not None:
                                 if type(list_obj) in PRIMITIVE_PYTHON_TYPES:
                                     f.write(
-                                        f'{id(obj)} -> "{list_obj}:{type(list_obj).__name__}"'  # noqa
+                                        f'{id(obj)} -> "{dot_escape(str(list_obj))}:{type(list_obj).__name__}"'  # noqa
                                         f' [label="{attr_name}:{idx}" {endmark}]\n'
                                     )
                                 else:
@@ -472,7 +472,7 @@ def model_export_to_file(f, model=None, repo=None):
 
                     if type(attr_value) in PRIMITIVE_PYTHON_TYPES:
                         if attr_name == "name":
-                            name = attr_value
+                            name = dot_escape(str(attr_value))
                         else:
                             attrs += (
                                 f"{required}{attr_name}:"
@@ -494,12 +494,13 @@ def model_export_to_file(f, model=None, repo=None):
     def _export_subgraph(m):
         from textx import get_children
 
-        f.write(f'subgraph "cluster_{m._tx_filename}" {{\n')
+        filename = dot_escape(str(m._tx_filename))
+        f.write(f'subgraph "cluster_{filename}" {{\n')
         f.write(
             f"""
         penwidth=2.0
         color=darkorange4;
-        label = "{m._tx_filename}";
+        label = "{filename}";
                     """
         )
         for obj in get_children(lambda _: True, m):
